@@ -14,6 +14,9 @@ import (
 	pkglint "github.com/rillig/pkglint/v23"
 )
 
+// lgOracle is the oracle that serves "logger" requests: c08 or c06log (one runner per process).
+var lgOracle = "c08"
+
 type lgScript struct {
 	Opts   pkglint.VerifLoggerOpts
 	Lines  []pkglint.VerifLine
@@ -465,7 +468,7 @@ func lgDecodeScript(v any) (s lgScript, ok bool) {
 
 // lgDisagree runs one script on both sides.
 func lgDisagree(ctx *Ctx, s lgScript) (string, error) {
-	ans, err := runOracle(ctx, "c08", []string{lgRequest(s, false)})
+	ans, err := runOracle(ctx, lgOracle, []string{lgRequest(s, false)})
 	if err != nil {
 		return "", err
 	}
@@ -501,7 +504,7 @@ func lgRunScripts(ctx *Ctx, res *Result, rng *Rng, n int, prop string, c08 bool)
 		scripts[i] = lgGenScript(rng)
 		reqs[i] = lgRequest(scripts[i], i%2 == 1)
 	}
-	ans, err := runOracle(ctx, "c08", reqs)
+	ans, err := runOracle(ctx, lgOracle, reqs)
 	if err != nil {
 		res.Broken = err.Error()
 		return
@@ -560,6 +563,7 @@ func lgRunScripts(ctx *Ctx, res *Result, rng *Rng, n int, prop string, c08 bool)
 		res.Evaluations++
 		res.TracesValidated++
 		if !c08 {
+			c06CheckRealOutput(res, s, r)
 			continue
 		}
 		if !lgHasNewlineMsg(s) {
